@@ -73,6 +73,12 @@ def main(argv: List[str]) -> int:
             items[tid] = {'tid': tid, 'route': route, 'doc': dm['doc'], 'model': dm['model'], 'fseed': None, 'pinned': {},
                           'seed': pid, 'variant': 'product'}
     rep.notes['product_models'] = len(pm)
+    # real documents (pv/corpus.py): the model is the projection of the parse; the round trip is judged from there
+    from . import corpus
+    for s in corpus.sources(rep):
+        tid += 1
+        items[tid] = {'tid': tid, 'route': 'text', 'text': s['text'], 'allow': s['allow'], 'doc': [], 'model': None, 'fseed': None, 'pinned': {},
+                      'seed': s['origin'], 'variant': 'corpus'}
     res = render.run_items(list(items.values()), rep, 'C02')
     judge('C02', ['content', 'fixpoint'], rep, res, items, lambda it: docs.doc_features(it['doc']) > 0)
     t0 = next(iter(items))
